@@ -26,7 +26,7 @@ ColPool == { [f |-> f, mod |-> m, brk |-> b, min |-> r[1], max |-> r[2]] :
 Cols1 == IF Tiny THEN { [f |-> f, mod |-> "", brk |-> b, min |-> 1, max |-> 6] : f \in {"e", "c(x)"}, b \in BOOLEAN }
          ELSE { c \in ColPool : c.mod \in Mods(c.f) }
 ColLists == UNION { [1 .. n -> Cols1] : n \in 1 .. MaxCols }
-LimitPool == { <<30, 20>>, <<1, 1>>, <<0, 2>>, <<2, 0>>, <<2, 2>>, <<-1, -1>> }        \* <<-1,-1>> = "*" (no limits)
+LimitPool == { <<30, 20>>, <<1, 1>>, <<0, 2>>, <<2, 0>>, <<2, 2>>, <<0, 0>>, <<-1, -1>> }        \* <<-1,-1>> = "*" (no limits)
 (* half-open pairs can only be given through the constructor argument limits=(n_first, n_last) with one None (-1):  *)
 (* they mean "no limits" and are reported as "*"                                                                     *)
 HalfOpen == { <<-1, 2>>, <<3, -1>> }
